@@ -139,6 +139,7 @@ struct World {
     variant: String,
     deployed: bool,
     tx_counter: u64,
+    snaps: std::collections::HashMap<String, (BlockchainState, Vec<(u64, u64, BigUint)>, u64)>,
 }
 
 fn register(r: &mut ScenarioVMRunner, name: &str, b: Box<dyn CallableContract>) {
@@ -173,7 +174,7 @@ fn big() -> String {
 
 impl World {
     fn new() -> Self {
-        World { r: ScenarioVMRunner::new(), variant: String::new(), deployed: false, tx_counter: 0 }
+        World { r: ScenarioVMRunner::new(), variant: String::new(), deployed: false, tx_counter: 0, snaps: Default::default() }
     }
 
     fn fresh(&mut self, variant: &str, owner: u64) -> bool {
@@ -181,6 +182,7 @@ impl World {
         self.variant = variant.to_string();
         self.deployed = false;
         self.tx_counter = 0;
+        self.snaps.clear();
         LOCK_CALLS.with(|l| l.borrow_mut().clear());
         let Some(obj) = contract_obj(variant) else { return false };
         register(&mut self.r, "lp-code", obj);
@@ -196,7 +198,10 @@ impl World {
             st = st.put_account(addr_expr(id).as_str(), acc);
         }
         for id in CONTRACT_IDS {
-            let acc = Account::new().nonce(0u64).balance(big().as_str()).code("str:lock-code");
+            let mut acc = Account::new().nonce(0u64).balance(big().as_str()).code("str:lock-code");
+            for t in &TOKENS[2..6] {
+                acc = acc.esdt_balance(format!("str:{t}").as_str(), big().as_str());
+            }
             st = st.put_account(addr_expr(id).as_str(), acc);
         }
         st = st.new_address(addr_expr(owner).as_str(), 0u64, "sc:lp");
@@ -780,6 +785,26 @@ fn main() {
                 r.unwrap_or_else(|_| "X harness panic in dump".to_string())
             }
             "storage" => dump::raw_storage(&w),
+            "snap" => {
+                let name = t.s().to_string();
+                let locks = LOCK_CALLS.with(|l| l.borrow().clone());
+                let st = w.state().clone();
+                let txc = w.tx_counter;
+                w.snaps.insert(name, (st, locks, txc));
+                "R snap".to_string()
+            }
+            "restore" => {
+                let name = t.s().to_string();
+                match w.snaps.get(&name).cloned() {
+                    None => "X no such snapshot".to_string(),
+                    Some((st, locks, txc)) => {
+                        *w.r.blockchain_mock.state = st;
+                        w.tx_counter = txc;
+                        LOCK_CALLS.with(|l| *l.borrow_mut() = locks);
+                        "R restore".to_string()
+                    }
+                }
+            }
             "reset" => {
                 w = World::new();
                 "R reset".to_string()
